@@ -84,8 +84,16 @@ def work(tasks, idx):
             flags = rng.randrange(256)
             rp, counter, aaguid = rng.bytes_(32), rng.randrange(2 ** 32), rng.bytes_(16)
             cid = rng.bytes_(rng.choice([0, 1, 16, 32, 64, 255, 256, 1023]))
+            if rng.random() < 0.05:     # an id containing the byte pattern the Ed25519 work-around looks for (at the key position only)
+                cid = rng.bytes_(rng.randrange(0, 20)) + bytes.fromhex("a301634f4b500327206745643235353139") + rng.bytes_(rng.randrange(0, 20))
             cose = c.cose() if flags & 0x40 else None
-            extv = ({} if rng.random() < 0.1 else {"ext": rand_ext(rng)}) if flags & 0x80 else None
+            extv = None
+            if flags & 0x80:
+                # registered extension identifiers with arbitrary (also out-of-range) values: the parser's job is to return the
+                # bytes, not to interpret them
+                names = rng.sample(["ext", "credProtect", "credBlob", "hmac-secret", "minPinLength", "largeBlobKey", "uvm", "thirdPartyPayment"],
+                                   rng.randrange(0, 4))
+                extv = {nm: (rng.choice([0, 1, 2, 3, 4, 255, -1, True, None, "x", b"\x00"]) if rng.random() < 0.5 else rand_ext(rng)) for nm in names}
             ext = cbor2.dumps(extv) if extv is not None else None
             ad = core.auth_data(rp, flags, counter, aaguid=aaguid, cred_id=cid, cose=cose, ext=ext)
             mode = rng.random()
